@@ -35,12 +35,16 @@ def load_modules():
 
 
 # which correspondences each property's verdict depends on
+# A property lists the correspondences of the stages its theorems depend on.
+# C03/C04/C05/C15 are proved for ARBITRARY trees, so they depend on the view /
+# edit stage only; K-view and K-edit skip a document on which model and code
+# already disagree about the parse (that is K-parse's business).
 CORR = {
-    'C01': ['K-tok', 'K-parse'], 'C02': ['K-tok', 'K-parse'], 'C03': ['K-parse', 'K-view'],
-    'C04': ['K-parse', 'K-view'], 'C05': ['K-parse', 'K-edit'], 'C06': ['K-tok', 'K-parse'],
+    'C01': ['K-tok', 'K-parse'], 'C02': ['K-tok', 'K-parse'], 'C03': ['K-view'],
+    'C04': ['K-view'], 'C05': ['K-edit'], 'C06': ['K-tok', 'K-parse'],
     'C07': ['K-parse'], 'C08': ['K-tok', 'K-parse'], 'C09': ['K-tok', 'K-parse'],
     'C10': ['K-tok', 'K-parse'], 'C11': ['K-parse'], 'C12': ['K-tok', 'K-parse'],
-    'C13': ['K-tok', 'K-parse', 'K-clo', 'K-regex'], 'C14': ['K-parse', 'K-edit'], 'C15': ['K-parse', 'K-edit'],
+    'C13': ['K-tok', 'K-parse', 'K-clo', 'K-regex'], 'C14': ['K-parse', 'K-edit'], 'C15': ['K-edit'],
     'C16': ['K-parse'], 'C17': ['K-tok', 'K-parse'], 'C18': ['K-args'],
     'C19': ['K-cat', 'K-tok'], 'C20': ['K-buf'],
 }
